@@ -78,7 +78,39 @@ func noteUndecided(c *Ctx, m *Model, r *E1, rule string) {
 				c.Undecide(rule, h.Key+"#"+n, m.P.Pos(h.Fn.Pos()), "construct not modelled by the effect analysis: "+n)
 			}
 		}
+		// every state effect on a committed path has had its error looked at: an ORM write or bank call
+		// whose error value is overwritten or dropped may have failed (a unique or primary-key
+		// constraint is how the ORM says "already there") while the handler reports success
+		for _, o := range h.Outs {
+			for i := range o.St.events {
+				ev := &o.St.events[i]
+				if !isEffect(ev) || ev.ErrID == 0 || !inScope(o, ev) || o.St.errs[ev.ErrID] == 1 || !callYieldsError(ev.Pos) {
+					continue
+				}
+				k := h.Key + "#unchecked-error:" + siteKey(ev)
+				if seen[k] {
+					continue
+				}
+				seen[k] = true
+				c.Violate(rule, k, m.P.Pos(ev.Pos.Pos()), "the error of "+describeEvent(o.St, ev)+" is not tested on a path on which the handler succeeds {"+outcomeLabel(h, o)+"}: the write may have been refused (constraint violation) and the message still succeeds", nil)
+			}
+		}
 	}
+}
+
+// callYieldsError: the call instruction has an error among its results.
+func callYieldsError(in ssa.Instruction) bool {
+	ci, ok := in.(ssa.CallInstruction)
+	if !ok {
+		return false
+	}
+	res := ci.Common().Signature().Results()
+	for i := 0; i < res.Len(); i++ {
+		if isErrorType(res.At(i).Type()) {
+			return true
+		}
+	}
+	return false
 }
 
 func hasLedgerEffect(h *HandlerResult) bool {
@@ -103,6 +135,7 @@ func checkC01(c *Ctx, e *Env) {
 	noteUndecided(c, m, r, "C01.E1")
 	ruleSupplyCovered(c, m, r, "C01.COVER")
 	ruleArith(c, e, "C01.ARITH", func(ep *EntryPoint) bool { return ep.Kind == "msg" || ep.Kind == "beginblock" })
+	importObligations(c, e, checkC05, "C05", "C01.UNIT", "basket conversion#credit-type-precision", "credits leave a basket in amounts of tokens / 10^precision of the basket's credit type: with any other exponent a single token is worth less than the smallest credit amount and Take stores balances with more decimal places than the precision", func(o *Oblig) bool { return o.Rule == "C05.EQ" })
 	nPaths := 0
 	for _, h := range r.Handlers {
 		if !hasLedgerEffect(h) {
